@@ -943,9 +943,24 @@ impl<'p, W, R, T> CompilationScope<'p, W, R, T> {
             XExpr::Call(func0, args) => {
                 let func_type = self.type_of(func0)?;
                 if let XType::XCallable(spec) = func_type.as_ref() {
+                    if spec.param_types.len() != args.len() {
+                        return Err(CompilationError::CallableBindingFailed);
+                    }
+                    for (param_type, arg) in spec.param_types.iter().zip(args) {
+                        let arg_type = self.type_of(arg)?;
+                        if param_type.bind_in_assignment(&arg_type).is_none() {
+                            return Err(CompilationError::InvalidArgumentType {
+                                expected: param_type.clone(),
+                                got: arg_type,
+                            });
+                        }
+                    }
                     return Ok(spec.return_type.clone());
                 }
                 if let XType::XFunc(func) = func_type.as_ref() {
+                    if !func.accepts_arg_count(args.len()) {
+                        return Err(CompilationError::CallableBindingFailed);
+                    }
                     let mut bind = Bind::new();
                     for (param, arg) in func.params.iter().zip(args) {
                         let arg_type = self.type_of(arg)?;
